@@ -1,5 +1,5 @@
 INIT Init
 NEXT Next
-CONSTANTS NL = 6 WE = 2 WO = 1 C = 1 Word = 256 Head2 = 64 SubCarry = 4 Slack = 1 BMode = "corner" PairMode = "few" Variant = "code"
+CONSTANTS NL = 6 WE = 2 WO = 1 C = 1 Word = 256 Head2 = 64 SubCarry = 4 Slack = 1 AMode = "all" BMode = "corner" PairMode = "few" Variant = "code"
 INVARIANTS AddSubExact ReduceExact MulExact SquareExact MulIsColumnSum ContractCanonical
 CHECK_DEADLOCK FALSE
